@@ -146,6 +146,35 @@ def seq_case(rep, rng, lines, expect):
     expect.append('%s req=%d resp=%d pending-errors=%d' % (res, req, resp, pend))
 
 
+def seq_select_visibility(rep):
+    """confirm_deliveries(): a publish that another thread starts while the Confirm.Select is on its way reaches the
+    broker after the Select (writes are ordered), so the broker will confirm it - the client must already treat the
+    channel as confirming when the Select is written, or that publish returns None and its Ack is taken for the next
+    publish's.  Deterministic: the channel's mode is read at the moment the Select is handed to the connection."""
+    import amqpstorm
+    from amqpstorm.channel import Channel
+    from pamqp import specification as spec
+    conn = amqpstorm.Connection('localhost', 'guest', 'guest', lazy=True)
+    conn.set_state(3)
+    ch = Channel(1, conn, 1)
+    ch.set_state(3)
+    conn._channels[1] = ch
+    seen = {}
+
+    def write_frame(cid, fr):
+        if fr.name == 'Confirm.Select':
+            seen['mode_at_select'] = ch.confirming_deliveries
+            ch.rpc.on_frame(spec.Confirm.SelectOk())
+    conn.write_frame = write_frame
+    ch.confirm_deliveries()
+    replay = {'kind': 'seq-select-visibility'}
+    if seen.get('mode_at_select') is not True or ch.confirming_deliveries is not True:
+        rep.violation('C13/confirm-mode-not-visible-when-select-is-sent', 'when Confirm.Select was written confirming_deliveries was %r (after the call: %r): a '
+                      'publish started by another thread now would not wait for the confirm the broker is going to send' % (
+                          seen.get('mode_at_select'), ch.confirming_deliveries), replay)
+    rep.case(('seq-select-visibility',), True, sample=replay)
+
+
 def cosim_one(args):
     sc, seed = args
     import amqpstorm
@@ -240,6 +269,7 @@ def check(rep):
     lines, expect = [], []
     for _ in range(2500 if not thorough else 40000):
         seq_case(rep, rng, lines, expect)
+    seq_select_visibility(rep)
     jobs = []
     for _ in range(80 if not thorough else 2000):
         nchan = rng.randint(1, 2)
